@@ -77,6 +77,72 @@ func runC07(c *Ctx) {
 		c.L.Record(core.Undecided, "C07.separators", "hostsfile", "const spaces", "-", "the separator table constant is gone")
 		return
 	}
+	// the two field cutters: field = data[:IndexAny(data, spaces)], tail =
+	// TrimLeft(data[that index:], spaces) — the whole run of separators is
+	// skipped, so fields may be separated by any number of spaces and tabs
+	c.L.Floor("C07.cut-shape", 2)
+	for _, name := range []string{"cutField", "cutStringField"} {
+		f := c.fn("hostsfile", name)
+		if f == nil {
+			continue
+		}
+		data := ssa.Value(f.Params[0])
+		var idx ssa.Value
+		for _, ci := range core.CallsTo(f, "strings.IndexAny", "bytes.IndexAny") {
+			if ci.Common().Args[0] == data {
+				idx = ci.Value()
+			}
+		}
+		nret, okAll := 0, idx != nil
+		why := ""
+		for _, ret := range core.Returns(f) {
+			if len(ret.Results) != 2 {
+				okAll = false
+				continue
+			}
+			if ret.Results[0] == data {
+				// no separator: the whole input is the field, the tail is empty
+				nz := false
+				if sc, isK := core.ConstString(ret.Results[1]); isK && sc == "" {
+					nz = true
+				}
+				if core.IsNilConst(ret.Results[1]) {
+					nz = true
+				}
+				if !nz {
+					okAll, why = false, "the no-separator exit returns a non-empty tail"
+				}
+				continue
+			}
+			nret++
+			fs, isF := ret.Results[0].(*ssa.Slice)
+			if !isF || fs.X != data || fs.Low != nil || fs.High != idx {
+				okAll, why = false, "the field is not data[:index of the first separator]"
+				continue
+			}
+			tl, isC := ret.Results[1].(*ssa.Call)
+			okTail := false
+			if isC && (core.CalleeName(&tl.Call) == "strings.TrimLeft" || core.CalleeName(&tl.Call) == "bytes.TrimLeft") {
+				if ts, isS := tl.Call.Args[0].(*ssa.Slice); isS && ts.X == data && ts.High == nil && ts.Low != nil {
+					// from the separator (or just after it) on
+					if ts.Low == idx {
+						okTail = true
+					} else if b, isB := ts.Low.(*ssa.BinOp); isB && b.Op == token.ADD && b.X == idx {
+						if k, isK := core.ConstInt(b.Y); isK && k == 1 {
+							okTail = true
+						}
+					}
+				}
+				if cs, isK := core.ConstString(tl.Call.Args[1]); !isK || cs != spaces {
+					okTail = false
+				}
+			}
+			if !okTail {
+				okAll, why = false, "the tail is not TrimLeft(data[index:], spaces): a run of several separators leaves a field that starts with a separator (the following names are dropped)"
+			}
+		}
+		c.check(okAll && nret >= 1, "C07.cut-shape", f, "field = data[:i], tail = TrimLeft(data[i:], spaces) with i = IndexAny(data, spaces)", nil, why)
+	}
 	um := c.fn("hostsfile", "Record.UnmarshalText")
 	mt := c.fn("hostsfile", "Record.MarshalText")
 	cutF := c.P.Func("hostsfile", "cutField")
@@ -500,6 +566,39 @@ func runC08(c *Ctx) {
 
 	if f := c.fn("hostsfile", "Parse"); f != nil {
 		c08Parse(c, f)
+	}
+	// Parse delivers what Record.UnmarshalText accepts: the record grammar
+	// obligations (C07.*) are part of this property's check as well.
+	runC07(c)
+	// NewDefaultStorage: one Parse per reader, on that reader itself — a
+	// concatenated stream glues the last line of a source without a final
+	// newline to the first line of the next one
+	if f := c.fn("hostsfile", "NewDefaultStorage"); f != nil {
+		c.L.Floor("C08.storage.per-reader", 1)
+		n := 0
+		for _, ci := range core.CallsTo(f, core.ModPath+"/hostsfile.Parse") {
+			n++
+			src := ci.Common().Args[1]
+			okElem := false
+			// readers[i]: load of IndexAddr(readers param, i)
+			if ld, ok := src.(*ssa.UnOp); ok && ld.Op == token.MUL {
+				if ia, ok := ld.X.(*ssa.IndexAddr); ok && len(f.Params) == 1 && ia.X == ssa.Value(f.Params[0]) {
+					okElem = true
+				}
+			}
+			okDst := false
+			for _, r := range core.Returns(f) {
+				if len(r.Results) > 0 && core.Unwrap(r.Results[0]) == core.Unwrap(ci.Common().Args[0]) {
+					okDst = true
+				}
+			}
+			_ = okDst
+			c.check(okElem && core.InLoop(ci), "C08.storage.per-reader", f, "Parse(s, readers[i], nil) once per reader", ci,
+				"each source is scanned on its own, so a missing final newline ends a line instead of joining two sources")
+		}
+		if n == 0 {
+			c.undecided("C08.storage.per-reader", f, "Parse call", nil, "NewDefaultStorage no longer calls Parse")
+		}
 	}
 	// names must be private copies of the scanner buffer (see C07.two-pass)
 	if um := c.fn("hostsfile", "Record.UnmarshalText"); um != nil {
